@@ -7,6 +7,7 @@
   Every theorem is for every capacity, every list satisfying `Inv` and every key/value.
 -/
 import Caches.Lemmas.RawLru
+import Caches.Lemmas.LruStack
 set_option linter.unusedSectionVars false
 set_option linter.unusedVariables false
 namespace C06
@@ -139,4 +140,35 @@ example : (⟨2, [(1, 10), (2, 20)], false⟩ : RawLru Nat Nat).Inv ∧
       .ok (⟨2, [(3, 30), (1, 10)], false⟩, .evicted 2 20, {}) := by
   refine ⟨⟨by decide, by decide⟩, by rfl⟩
 
+/-! ### every history of uses: the cache is the prefix of the unbounded recency stack -/
+
+/-- **the stack (inclusion) property of LRU, over every history of uses**: after any sequence of `put` / `get` /
+    `get_mut` on a plain LRU of any capacity, the cache holds exactly the first `cap` entries of the unbounded recency
+    stack of the same history — the `cap` most recently used distinct keys, most recent first, each with its
+    current value. (Hence a larger LRU always contains a smaller one run on the same history, and the evicted entry
+    is always the least recently used.) -/
+theorem lru_is_stack_prefix (cap : Nat) (cb : Bool) (c0 : RawLru κ ν) (hn : RawLru.new cap cb = some c0)
+    (ops : List (LruStack.UseOp κ ν)) :
+    ∃ c, runOps RawLru.step c0 (ops.map LruStack.UseOp.toRaw) = .ok c ∧
+      c.items = (ops.foldl (LruStack.step cap) []).take cap := by
+  unfold RawLru.new at hn
+  split at hn
+  · cases hn
+  · rename_i h0
+    injection hn with hn; subst hn
+    suffices H : ∀ (ops : List (LruStack.UseOp κ ν)) (c : RawLru κ ν) (D : AL κ ν), c.cap = cap → c.items = D.take cap →
+        ∃ c', runOps RawLru.step c (ops.map LruStack.UseOp.toRaw) = .ok c' ∧
+          c'.items = (ops.foldl (LruStack.step cap) D).take cap from
+      H ops _ [] rfl (by simp)
+    intro ops
+    induction ops with
+    | nil => intro c D _ hi; exact ⟨c, rfl, hi⟩
+    | cons o rest ih =>
+      intro c D hc hi
+      obtain ⟨c1, h1, hc1, hi1⟩ := LruStack.step_prefix cap (by omega) c D hc hi o
+      obtain ⟨c2, h2, hi2⟩ := ih c1 _ hc1 hi1
+      exact ⟨c2, by simp only [List.map_cons, runOps, h1, h2], by simp only [List.foldl_cons, hi2]⟩
+
+example : ([LruStack.UseOp.put 1 10, .put 2 20, .get 1 none, .put 3 30, .get 2 none].foldl (LruStack.step 2) ([] : AL Nat Nat)).take 2
+    = [(3, 30), (1, 10)] := by decide
 end C06
